@@ -981,6 +981,19 @@ def await_shapes():
     A(P("await-two-atomics", SJ(2) + JJ(2), [st("x", 1, "rel"), st("y", 1, "rel")], [await_("x", "acq"), await_("y", "acq"), ld("x")]))
     A(P("await-two-atomics-rlx", SJ(2) + JJ(2), [st("x", 1), st("y", 1)], [await_("y", "rlx"), await_("x", "rlx")]))
     A(P("await-under-lock", SJ(2) + JJ(2), [st("x", 1, "rel")] + CS("m", ld("y")), CS("m", await_("x", "acq"), st("y", 1))))
+    # two waiters in a chain, in both spawn orders: the thread that yields may have a higher or a lower index than the one it waits for
+    hs1 = [st("x", 1, "rel"), await_("y", "acq"), ld("z")]
+    hs2 = [await_("x", "acq"), st("z", 1), st("y", 1, "rel")]
+    A(P("await-handshake", SJ(2) + JJ(2), hs1, hs2))
+    A(P("await-handshake-mirrored", SJ(2) + JJ(2), hs2, hs1))
+    A(P("await-handshake-3", SJ(3) + JJ(3), hs1, hs2, [ld("z"), ld("y", "acq")]))
+    # the spinner does something between its first yield and its loop; the setter may observe it.  (loom's yield_now makes
+    # another thread take a step first; the unobserved stores to d give the setter a step that decides nothing, so that every
+    # outcome of the reference semantics - where yield is a no-op - is also reachable under loom's reading of yield)
+    wt = [st("d", 7), ld("x"), br(1, 0, 3), I("yield"), st("z", 1), await_("x", "rlx")]
+    se = [st("d", 42), fadd("z", 0), st("x", 1)]
+    A(P("await-mark-then-wait", SJ(2) + JJ(2), se, wt))
+    A(P("await-mark-then-wait-mirrored", SJ(2) + JJ(2), wt, se))
     return out
 
 
